@@ -338,6 +338,6 @@ def eval_tagger(case):
 def parts(tier):
     t = tier == 'thorough'
     return [
-        Part('iterator', eval_iterator, strategy=lambda: strategy('iterator'), examples=40000 if t else 4000),
-        Part('tagger', eval_tagger, strategy=lambda: strategy('tagger'), examples=12000 if t else 1200),
+        Part('iterator', eval_iterator, strategy=lambda: strategy('iterator'), examples=80000 if t else 4000),
+        Part('tagger', eval_tagger, strategy=lambda: strategy('tagger'), examples=24000 if t else 1200),
     ]
